@@ -190,6 +190,20 @@ def run(ctx):
             cases.append({"k": "enc", "ent": v.hex(), "via": "wallet"})
             cases.append({"k": "enc", "ent": v.hex(), "via": "upper"})
     ctx.product("encode", cases, execute)
+    # the LAST word mixes entropy bits with the computed checksum: for every size an entropy for EVERY value 0..2047 of the last
+    # word (hence every checksum value with every tail), found by deterministic search with the reference
+    cases = []
+    for size in SIZES:
+        need, i = set(range(2048)), 0
+        cs = size * 8 // 32
+        while need:
+            ent = hashlib.sha256(b"C04-last-%d-%d-%d" % (ctx.seed, size, i)).digest()[:size]
+            i += 1
+            last = ((ent[-2] << 8 | ent[-1]) << cs | hashlib.sha256(ent).digest()[0] >> (8 - cs)) & 2047
+            if last in need:
+                need.discard(last)
+                cases.append({"k": "enc", "ent": ent.hex()})
+    ctx.product("last-word-every-value", cases, execute, chunk=64)
     slot_sizes = SIZES if ctx.thorough else (32, 16)
     cases = [{"k": "slot", "size": s, "slot": w} for s in slot_sizes for w in range((s * 8 + s * 8 // 32) // 11)]
     ctx.product("word-slot-x-word-value", cases, execute, chunk=2)
